@@ -11,7 +11,7 @@ Extraction "stripe_model.ml"
   step2 run2 op2_ok seq_after1 check_C04_pad check_pad logical_seq sample_seq enc_sample striped_sample
   s_new_t configure_wrap_t configure_t s_index_t count_symbol_t count_symbols_t disp_stripe_arm disp_lanes_arm
   disp_lanes_x86 default_extra_rows
-  check_C04_full check_index_beyond check_agree pad_after1 pad_after check_mode
+  check_C04_full check_index_beyond check_agree pad_after1 pad_after check_mode striped_sample_fix
   step2_t step3 run3 op3_ok lower seq_after3_1 seq_after3 stripe_into_generic_t stripe_fresh_t stripe_into_t
   check_C04 observe op_typed generic_op last_seq wrap_after
   check_striped_fast check_striped check_wrap_rows striped_row seq_rows
